@@ -1,6 +1,7 @@
 """C19 - schema transformations preserve meaning (structural clauses)."""
 from __future__ import annotations
 
+from rules import generic_rules as G
 from rules import sdl_rules as D, schema_rules as S, write_effect as W
 from sa.loader import Repo
 from sa.report import Check
@@ -34,6 +35,8 @@ def run(check: Check, repo: Repo, tier: str) -> None:
     check.floor("NO-MUTATION", 40, "write sites in the schema transformation modules")
     D.extend_build_agree(check, repo)
     D.cross_schema_identity(check, repo)
+    G.zip_filter(check, [repo.mod(mn) for mn in MODS] + [repo.mod("utilities.find_schema_changes")])
+    G.arg_name_match(check, repo, funcs)
     check.rule("DISPATCH-EXH", "every member of a closed class family has a handling arm in the dispatch")
     # extend_schema_args over definition / extension classes
     es = repo.func("utilities.extend_schema", "ExtendSchemaImpl.extend_schema_args")
